@@ -18,7 +18,7 @@ func isTimeTime(t types.Type) bool {
 }
 
 func checkC17(c *Ctx) {
-	c.Explanation = "Decides a non-interference statement: the only way the handler's start time may influence the state that the time computation reads is through the week quantiser (the function that maps an instant to 00:00:00 UTC of the Sunday on or before it).  Source = the startTime parameter of handler.New; sanitiser = results of the quantiser; sinks = every Handler field stored by New.  Any flow from the source to a sink that bypasses the quantiser makes the reported times depend on where in the week the start time lies and is reported.  Also checks that the quantiser really truncates to midnight UTC of a Sunday (time.Date(...,0,0,0,0,UTC) after a loop that stops on Weekday()==Sunday) and that all four start-of-week fields are derived from it."
+	c.Explanation = "Decides a non-interference statement: the only way the handler's start time may influence the state that the time computation reads is through the week quantiser (the function that maps an instant to 00:00:00 UTC of the Sunday on or before it).  Source = the startTime parameter of handler.New; sanitiser = results of the quantiser; sinks = every Handler field stored by New.  Any flow from the source to a sink that bypasses the quantiser makes the reported times depend on where in the week the start time lies and is reported.  Also checks that the quantiser really truncates to midnight UTC of a Sunday (time.Date(...,0,0,0,0,UTC) after a loop that stops on Weekday()==Sunday) and that all four start-of-week fields are derived from it.  (R4) every successful Glonass result is the stored start of week plus the day and millisecond offsets of the timestamp: no special case re-bases a time on the handler's initial day state."
 	c.NotDecided = "that two instants of the same constellation week always quantise to the same Sunday once the leap-second shift is applied (calendar arithmetic; exercised by TestGetLastSundayUTC); the conversion arithmetic itself (C06)."
 	P := c.P
 	newFn := P.Func("rtcm/handler", "New")
